@@ -7,6 +7,7 @@ import (
 	"strings"
 
 	"github.com/db47h/decimal"
+	dctx "github.com/db47h/decimal/context"
 	verifrt "github.com/db47h/decimal/verifrt"
 )
 
@@ -596,9 +597,57 @@ func newOracle(prop string) histOracle {
 	panic("no oracle for " + prop)
 }
 
+// ctxPrecProbe checks the documented clamping of a Context's precision at and
+// beyond the top of the range, without doing arithmetic at such a precision:
+// 0 means DefaultDecimalPrec, anything above MaxPrec means MaxPrec - also for
+// values that are multiples of 2^32 (64-bit uint).
+func ctxPrecProbe() string {
+	vals := []uint{0, 1, decimal.MaxPrec - 1, decimal.MaxPrec}
+	if ^uint(0)>>32 != 0 {
+		one := uint(1)
+		vals = append(vals, decimal.MaxPrec+1, decimal.MaxPrec+7, one<<33, 3*(one<<32), one<<62, ^uint(0))
+	}
+	for _, p := range vals {
+		want := p
+		if want == 0 {
+			want = decimal.DefaultDecimalPrec
+		}
+		if want > decimal.MaxPrec {
+			want = decimal.MaxPrec
+		}
+		c := dctx.New(p, decimal.ToZero)
+		if c.Prec() != want {
+			return fmt.Sprintf("context.New(%d, ...).Prec() = %d, want %d", p, c.Prec(), want)
+		}
+		c2 := dctx.New(7, decimal.ToZero)
+		c2.SetPrec(p)
+		if c2.Prec() != want {
+			return fmt.Sprintf("Context.SetPrec(%d): Prec() = %d, want %d", p, c2.Prec(), want)
+		}
+		if d := c2.New(); d.Prec() != want || d.Mode() != decimal.ToZero {
+			return fmt.Sprintf("Context.SetPrec(%d) then New(): Decimal has prec %d mode %v, want %d ToZero", p, d.Prec(), d.Mode(), want)
+		}
+	}
+	return ""
+}
+
 func runHist(sc *Scenario) *Outcome {
+	if sc.Property == "C19" && (sc.Seed&0x3ff == 7 || sc.Note == "ctx-prec-probe") {
+		if msg := ctxPrecProbe(); msg != "" {
+			out := &Outcome{Counters: map[string]int{}}
+			out.Violation = &ViolationRec{Property: "C19", Class: "ctx-attr", Oracle: "context-model", OpName: "c.SetPrec", Msg: msg, Sig: "ctx-attr:precision-clamp"}
+			rp := *sc
+			rp.Note = "ctx-prec-probe"
+			out.Repro = &rp
+			return out
+		}
+	}
 	applyKnobs(sc.Knobs)
 	defer applyKnobs([4]int{})
+	if sc.Far {
+		maxSpread = 150000
+		defer func() { maxSpread = 6000 }()
+	}
 	out := &Outcome{Counters: map[string]int{}}
 	w := buildWorld(sc)
 	or := newOracle(sc.Property)
